@@ -206,6 +206,8 @@ def do_check(pid, tier, seed):
     print(f"  sig={v['sig']} expected={v['expected']!r} observed={v['observed']!r} {v['msg']}")
   if len(new) > 25:
     print(f"  ... and {len(new)-25} further distinct violation signatures")
+    if os.environ.get("VERIF_SHOWALL"):
+      for v in new[25:]: print(f"  more: sig={v['sig']} expected={v['expected']!r} observed={v['observed']!r} {str(v['msg'])[:200]}")
     import collections
     cls = collections.Counter(":".join(v["sig"].split(":")[:3]) for v in new)
     for k, n in cls.most_common(30): print(f"  class {k}: {n} signatures")
